@@ -22,7 +22,7 @@ np.seterr(all="ignore")
 META = {
  "C01": {
     "level": "exploration",
-    "quick_runs": 2500,
+    "quick_runs": 16000,
     "block": 25,
     "thorough_budget_s": 900,
     "rule": ("one run = one seeded builder script (1..3 phases, feature mask over loops/variable bounds/"
@@ -47,7 +47,7 @@ META = {
  },
  "C11": {
     "level": "fault_enumeration",
-    "quick_runs": 1200,
+    "quick_runs": 8000,
     "block": 20,
     "thorough_budget_s": 900,
     "rule": ("one run = one seeded builder script with user-function calls + caller history; for a drawn "
